@@ -389,15 +389,22 @@ def drive_and_validate(ev, layer, n, length, module, cfg, extra_args=()):
         os.remove(tr)
 
 
-def mc_and_replay(ev, module, cfg, layer, timeout, required_actions, emit=("Emit",), emitting=None):
+def mc_and_replay(ev, module, cfg, layer, timeout, required_actions, emit=("Emit",), emitting=None,
+                  coverage=True, env=None, need_features=()):
     name = os.path.basename(cfg)[:-4]
     c = emit_cfg(cfg, name + "_emit.cfg", emit)
-    res, rep = run_tlc(module, c, timeout, f"{ev.pid}-{name}", pipe_to=[MTV, "replay", layer, "-"])
+    res, rep = run_tlc(module, c, timeout, f"{ev.pid}-{name}", pipe_to=[MTV, "replay", layer, "-"],
+                       coverage=coverage, env=env)
     ev.add_tlc(name, res, required_actions)
+    for f in need_features:
+        if not rep.get("extra", {}).get(f):
+            raise ToolError(f"vacuity: no generated program has feature '{f}' in {name} ({rep.get('extra')})")
     if res.violated:
         spec_violation(ev, name, res)
     ev.add_report(name + ":replay", rep)
     expected = res.distinct if emitting is None else sum(res.cov_distinct.get(a, 0) for a in emitting)
+    if not coverage:
+        expected = 1
     if rep["scripts"] < expected and not res.violated:
         raise ToolError(f"only {rep['scripts']} of {expected} emitted states reached the harness")
     return res, rep
@@ -453,9 +460,95 @@ def check_C09(tier, ev):
     drive_and_validate(ev, "bank", n, ln, "trace/Trace_Bank.tla", "trace/Trace_Bank.cfg")
 
 
+# ---- properties decided on the Chain specification -------------------------------------------
+CHAIN = {
+    "C01": dict(cfgs=["atomic"], focus="ok,raw,post,respcount,panic",
+                need=["err", "ok", "two_or_more_invocations", "failing_contract", "sudo", "instantiate"],
+                what="every entry point (execute, execute_multi of 1-3 messages, the Executor helpers, sudo bank mint, sudo wasm via "
+                     "sudo and wasm_sudo) x message trees in which every node may fail and no failure is absorbed (reply_on in "
+                     "{never, success}) x one earlier transaction of history; compared: Ok/Err, one response per message, the whole "
+                     "observable state after the call, byte-identical raw storage after Err"),
+    "C02": dict(cfgs=["tree"], focus="reads,ok,raw,post,panic",
+                need=["absorbed_failure_with_rolled_back_invocations", "reply_on_error", "reply_on_success", "failing_contract"],
+                what="trees of sub-messages A->B->C with fan-out 2 at the root, all four reply_on modes on every edge, every node "
+                     "(contract body, reply handler, bank transfer, instantiation) failing or not; every node writes a distinct token; "
+                     "compared: what every later invocation can read (balances, registry, all contract storages), Ok/Err, state after"),
+    "C03": dict(cfgs=["tree", "reply"], focus="seq,reply",
+                need=["reply_on_error", "reply_on_success", "two_or_more_invocations"],
+                what="the C02 trees plus a configuration varying id (0, 1, u64::MAX), payload (empty, text, 0x00 0xFF) and what the "
+                     "child returns; compared: the exact sequence of entry-point invocations (extra/missing/misplaced replies) and "
+                     "id, payload and Ok/Err carried by each Reply"),
+    "C04": dict(cfgs=["events", "reply"], focus="events,data,replyev,replydata,respcount",
+                need=["ok", "reply_on_success", "instantiate", "migrate", "sudo"],
+                what="attributes (none/one/two incl. empty value), custom events (none, without and with attributes, two) and data "
+                     "(absent, present-empty, present) at every node, every reply_on mode, entry kinds execute/instantiate/migrate/"
+                     "sudo/reply, bank transfers; compared: the exact event list and data bytes of every response and inside every Reply"),
+    "C05": dict(cfgs=["funds"], focus="info,reads.bankf,ok,seq,post.bank,panic",
+                need=["funds", "err", "instantiate", "sudo", "migrate"],
+                what="call chains user->A->B->A, contracts calling themselves, instantiation with funds; funds none / one / two "
+                     "denominations / exactly owned / more than owned; block changed by set_block / update_block before the call; "
+                     "compared: sender, own address, block, funds told, balances visible to the callee, no invocation on overdraw"),
+    "C08": dict(cfgs=["private"], focus="reads.cs,post.cs,views",
+                need=["two_or_more_invocations", "ok"],
+                what="three contracts (two from the same code) writing/removing keys that are instantiated with adversarial bytes "
+                     "(other modules' and contracts' raw prefixes), nested and top-level, two transactions; compared: every "
+                     "contract's storage as read by itself, by raw query, by dump_wasm_raw and by contract_storage, at every "
+                     "invocation and after the call"),
+    "C10": dict(cfgs=["tree", "private"], focus="reads,pure,views",
+                need=["absorbed_failure_with_rolled_back_invocations", "reply_on_error"],
+                what="the battery of bank / wasm raw / contract-info queries issued by the scripted contract at every entry-point "
+                     "invocation of the C02 trees (in particular after a caught failure), and the same queries through App after "
+                     "the call, twice, with the raw storage compared before and after"),
+    "C11": dict(cfgs=["registry"], focus="codes,names,val,ok,post.reg,reads.reg,flavour,panic,seq",
+                need=["instantiate", "err", "ok"],
+                what="histories of store_code / store_code_with_id (ids 0, 1, 3, 5) / duplicate_code followed by classic and salted "
+                     "instantiations (top-level and from a contract, failing and rolled back) with two creators, labels incl. empty; "
+                     "compared: returned ids, CodeInfo of every id, address binding (functional and injective), ContractInfo, "
+                     "which code serves each call"),
+    "C12": dict(cfgs=["admin"], focus="ok,post.reg,flavour,post.cs,reads.reg,seq",
+                need=["migrate", "err", "ok"],
+                what="Migrate / UpdateAdmin / ClearAdmin sent by the admin, a former admin, strangers and contracts (as sub-messages, "
+                     "incl. a contract migrating itself) on contracts with and without admin, sequences of up to 3; compared: "
+                     "Ok/Err, code id and admin afterwards, storage kept, which code serves the next call"),
+    "C13": dict(cfgs=["strings"], focus="ok,events,raw,post,seq,panic",
+                need=["err", "ok", "migrate", "sudo", "instantiate"],
+                what="every string of up to 2 (thorough: 3) characters over the classes ASCII space, tab, Unicode space, underscore, "
+                     "1-byte and 2-byte letter as response attribute key, event attribute key and event type, at execute / "
+                     "instantiate / migrate / sudo / reply and inside a sub-message under every reply_on; compared: Ok/Err, the "
+                     "emitted events (strings unchanged), state after"),
+    "C17": dict(cfgs=["routeacc", "routemix", "routefail"], focus="rlog,ok,panic,raw,post",
+                need=["module_called", "ok", "err"],
+                what="every message kind x origin (top-level, sub-message) x module configuration (all accepting, mixed, all "
+                     "failing) x position (first / after a state change) x reply_on; compared: which module was called with which "
+                     "sender, Ok/Err, rollback"),
+}
+
+
+def check_chain(tier, ev):
+    pid = ev.pid
+    c = CHAIN[pid]
+    ev.rule = ("TLC enumerates, lazily in invocation order, every program of the menu: " + c["what"] +
+               ". Every completed call is replayed on a real App with scripted contracts; a script counts against this "
+               "property iff the FIRST observable that differs from the specification belongs to the property's focus (" +
+               c["focus"] + "). Non-trivial = at least two contract invocations, a failing node, or a failing call "
+               "(distinct programs counted).")
+    ev.assumptions += ["contracts are scripted (arbitrary effects, queries and failures at every point, not arbitrary Rust)",
+                       "bounded: Fuel contract invocations per transaction, MaxTx calls per history, menus as stated",
+                       "error texts, gas and msg_responses are not compared"]
+    for name in c["cfgs"]:
+        cfg = f"mc/MC_Chain_{name}_{tier}.cfg"
+        mc_and_replay(ev, "mc/MC_Chain.tla", cfg, "chain", 3400, [], coverage=False,
+                      env={"MTV_FOCUS": c["focus"]}, need_features=c["need"] if name == c["cfgs"][0] else ())
+    ev.exhaustive = True
+
+
 CHECKS = {"C06": check_C06, "C07": check_C07, "C09": check_C09}
+for _p in CHAIN:
+    CHECKS[_p] = check_chain
 
 REPLAY_LAYER = {"C06": "overlay", "C07": "prefixed", "C09": "bank"}
+for _p in CHAIN:
+    REPLAY_LAYER[_p] = "chain"
 TRACE_SPEC = {"C06": ("trace/Trace_Overlay.tla", "trace/Trace_Overlay.cfg"),
               "C07": ("trace/Trace_Prefixed.tla", "trace/Trace_Prefixed.cfg"),
               "C09": ("trace/Trace_Bank.tla", "trace/Trace_Bank.cfg")}
